@@ -3020,6 +3020,9 @@ Grammar* IGXMLScanner::loadDTDGrammar(const InputSource& src,
 {
     // Reset the validators
     fDTDValidator->reset();
+    // (scanReset() has not necessarily run yet: without this the DTD's own
+    // validity errors are dropped when nothing was parsed before)
+    fDTDValidator->setErrorReporter(fErrorReporter);
     if (fValidatorFromUser)
         fValidator->reset();
 
